@@ -15,6 +15,7 @@ From V Require Import Model.Types Model.Crypto Model.Sym Model.Chain Model.KeyId
 From V Require Import Model.Asn1 Model.Pkcs7 Model.Blob Model.CryptoWrap Model.Interval Model.Client.
 From V Require Import Spec.GkdiSpec Spec.KekSpec.
 From V Require Import Proofs.BlobPkcs7 Proofs.BlobMain Proofs.C01Lib Proofs.C01.
+From V Require Proofs.C02 Proofs.GkdiLib Proofs.GkdiStructs Proofs.Kek.
 
 Section InBlob.
 Context (c : Crypto).
@@ -23,7 +24,7 @@ Theorem in_blob h rk rkid s sid time_ns l0 l1 l2 cache r1 r2 r3 data blob cache1
   rk_hash rk = Ok h -> rk_kdf_alg rk = STR_KDF_ALG -> len rkid = 16 ->
   sid_parse sid = Ok s -> sid_okb sid = true -> 0 <= time_ns -> interval_of_time_ns time_ns = (l0, l1, l2) ->
   kdf_nonempty c -> cache_ok c h rk rkid (target_sd s) l0 cache -> len r2 = 12 -> len r3 = 32 ->
-  (forall k w, kw_wrap c k r1 = Ok w -> len w < U32) -> (forall ct, gcm_enc c r1 r2 data = Ok ct -> len ct < U32) ->
+  (forall kek w, derived_kek c h rk rkid (target_sd s) l0 l1 l2 r3 = Ok kek -> kw_wrap c kek r1 = Ok w -> len w < U32) -> (forall ct, gcm_enc c r1 r2 data = Ok ct -> len ct < U32) ->
   protect_offline c cache r1 r2 r3 data sid (Some rkid) time_ns = (Ok blob, cache1) ->
   exists b e0 kek p,
     blob_unpack blob = Ok b /\
@@ -147,3 +148,111 @@ Qed.
 Theorem distinct_wrapped_ceks c (I : IdealLaws c) k x w k' x' w' :
   kw_wrap c k x = Ok w -> kw_wrap c k' x' = Ok w' -> x <> x' -> w <> w'.
 Proof. intros E1 E2 Hne <-. destruct (kw_inj c I _ _ _ _ _ E1 E2) as (_ & ->). now apply Hne. Qed.
+
+(* the same with the RNG hypothesis restricted to the draws the history makes (a stream of 32-byte strings cannot be
+   injective on all of nat): the final cursor is cur + 3 * (number of protect calls) *)
+Lemma final_cursor c rnd : forall ops cur cache,
+  snd (protect_many c rnd cur cache ops) = (cur + 3 * length (trace c rnd cur cache ops))%nat.
+Proof.
+  unfold trace. induction ops as [|o ops IH]; intros cur cache; [cbn; lia|].
+  destruct o as [a|blob]; cbn [protect_many].
+  - destruct (protect_offline c cache (rnd cur) (rnd (cur + 1)%nat) (rnd (cur + 2)%nat) (a_data a) (a_sid a) (a_rkid a) (a_time a)) as [r cache1].
+    specialize (IH (cur + 3)%nat cache1). destruct (protect_many c rnd (cur + 3)%nat cache1 ops) as [[tr cache2] cur2]. cbn [fst snd length] in *. lia.
+  - destruct (unprotect_offline c cache blob) as [r cache1]. apply IH.
+Qed.
+Definition rnd_distinct_below (rnd : nat -> bytes) (n : nat) : Prop := forall i j, (i < n)%nat -> (j < n)%nat -> i <> j -> rnd i <> rnd j.
+
+Theorem fresh_sequence_bounded c rnd ops cur cache i j ei ej :
+  rnd_distinct_below rnd (snd (protect_many c rnd cur cache ops)) -> i <> j ->
+  nth_error (trace c rnd cur cache ops) i = Some ei -> nth_error (trace c rnd cur cache ops) j = Some ej ->
+  let cek k := rnd k in let nonce k := rnd (k + 1)%nat in let kid_nonce k := rnd (k + 2)%nat in
+  cek (fst ei) <> cek (fst ej) /\ nonce (fst ei) <> nonce (fst ej) /\ kid_nonce (fst ei) <> kid_nonce (fst ej) /\
+  (cek (fst ei), nonce (fst ei)) <> (cek (fst ej), nonce (fst ej)) /\
+  (forall x y, In x (window (fst ei)) -> In y (window (fst ej)) -> rnd x <> rnd y).
+Proof.
+  intros Hd Hij Hi Hj. rewrite final_cursor in Hd.
+  pose proof (trace_cursors _ _ _ _ _ _ _ Hi) as Ci. pose proof (trace_cursors _ _ _ _ _ _ _ Hj) as Cj.
+  assert (Li : (i < length (trace c rnd cur cache ops))%nat) by (apply nth_error_Some; congruence).
+  assert (Lj : (j < length (trace c rnd cur cache ops))%nat) by (apply nth_error_Some; congruence).
+  cbv zeta. rewrite Ci, Cj.
+  split; [apply Hd; lia|]. split; [apply Hd; lia|]. split; [apply Hd; lia|].
+  split; [intros E; assert (E' : rnd (cur + 3 * i)%nat = rnd (cur + 3 * j)%nat) by congruence; revert E'; apply Hd; lia|].
+  unfold window. cbn [In]. intros x y Hx Hy. apply Hd; lia.
+Qed.
+
+(* ---- instances ---- *)
+(* a stream satisfying the unrestricted hypothesis (as lists of integers) whose first 256 draws are byte strings
+   of the lengths the library requests *)
+Definition ex_rnd (i : nat) : bytes := repeat (Z.of_nat i) (if Nat.eqb (i mod 3) 1 then 12 else 32).
+Lemma ex_rnd_distinct : rnd_distinct ex_rnd.
+Proof.
+  intros i j Hij E. apply Hij. unfold ex_rnd in E.
+  assert (H : forall n m (x y : Z), (0 < n)%nat -> (0 < m)%nat -> repeat x n = repeat y m -> x = y)
+    by (intros [|n] [|m] x y Hn Hm Hr; try lia; cbn in Hr; congruence).
+  apply Nat2Z.inj. refine (H _ _ _ _ _ _ E); [destruct (Nat.eqb (i mod 3) 1); lia|destruct (Nat.eqb (j mod 3) 1); lia].
+Qed.
+
+Definition ex_call (data : bytes) : call := {| a_data := data; a_sid := ex_sid; a_rkid := Some ex_rkid; a_time := ex_time |}.
+(* three protect calls, two of them with identical arguments, an unprotect call in between *)
+Definition ex_ops : list op := [Protect (ex_call [1; 2; 3]); Unprotect [48; 0]; Protect (ex_call [1; 2; 3]); Protect (ex_call [])].
+Definition ex_trace := trace symg ex_rnd 0 ex_cache ex_ops.
+
+(* the emitted blobs are pairwise different, each decrypts, and the nonce / key_info / content read back from the
+   blobs are the draws of the window of the call *)
+Definition blob_draws (r : res bytes) : option (res bytes * bytes) :=
+  match r with
+  | Ok blob => match blob_unpack blob with
+               | Ok b => Some (gcm_iv_of_parameters (b_enc_content_parameters b), kid_key_info (b_key_identifier b))
+               | Raise _ => None
+               end
+  | Raise _ => None
+  end.
+Example ex_trace_draws :
+  map fst ex_trace = [0%nat; 3%nat; 6%nat] /\
+  map (fun e => blob_draws (snd e)) ex_trace =
+    [Some (Ok (ex_rnd 1), ex_rnd 2); Some (Ok (ex_rnd 4), ex_rnd 5); Some (Ok (ex_rnd 7), ex_rnd 8)].
+Proof. split; vm_compute; reflexivity. Qed.
+
+Example ex_in_blob : exists blob cache1 b e0 kek p,
+  protect_offline symg ex_cache ex_r1 ex_r2 ex_r3 [1; 2; 3] ex_sid (Some ex_rkid) ex_time = (Ok blob, cache1) /\
+  blob_unpack blob = Ok b /\ gcm_parameters ex_r2 = Ok p /\ b_enc_content_parameters b = Some p /\
+  gcm_iv_of_parameters (b_enc_content_parameters b) = Ok ex_r2 /\ kid_key_info (b_key_identifier b) = ex_r3 /\
+  derived_kek symg SHA512 ex_rk ex_rkid (target_sd (parsed ex_sid)) 361 31 23 ex_r3 = Ok kek /\
+  Ok (b_enc_content b) = gcm_enc symg ex_r1 ex_r2 [1; 2; 3] /\ Ok (b_enc_cek b) = kw_wrap symg kek ex_r1 /\
+  cc_find_seed (cc_seeds cache1) (ex_rkid, target_sd (parsed ex_sid), 361) = Some e0.
+Proof.
+  destruct (protect_offline symg ex_cache ex_r1 ex_r2 ex_r3 [1; 2; 3] ex_sid (Some ex_rkid) ex_time) as [[blob|] cache1] eqn:Ep;
+    [|vm_compute in Ep; discriminate Ep].
+  assert (Hc : cache_ok symg SHA512 ex_rk ex_rkid (target_sd (parsed ex_sid)) 361 ex_cache) by (apply cache_ok_fresh; reflexivity).
+  destruct (in_blob symg SHA512 ex_rk ex_rkid (parsed ex_sid) ex_sid ex_time 361 31 23 ex_cache ex_r1 ex_r2 ex_r3 [1; 2; 3] blob cache1
+              ltac:(vm_compute; reflexivity) eq_refl eq_refl ltac:(vm_compute; reflexivity) ltac:(vm_compute; reflexivity) ltac:(unfold ex_time; lia)
+              ltac:(vm_compute; reflexivity) symg_kdf_nonempty Hc eq_refl eq_refl ltac:(ex_wrap_size) ltac:(ex_gcm_size) Ep)
+    as (b & e0 & kek & p & H).
+  exists blob, cache1, b, e0, kek, p. split; [reflexivity|]. tauto.
+Qed.
+
+Lemma trace_windows c rnd ops cur cache k e : nth_error (trace c rnd cur cache ops) k = Some e ->
+  fst e = (cur + 3 * k)%nat /\
+  exists cache_k a, In (Protect a) ops /\
+    snd e = fst (protect_offline c cache_k (rnd (fst e)) (rnd (fst e + 1)%nat) (rnd (fst e + 2)%nat) (a_data a) (a_sid a) (a_rkid a) (a_time a)).
+Proof. intros H. split; [exact (trace_cursors c rnd ops cur cache k e H)|exact (trace_entries c rnd ops cur cache k e H)]. Qed.
+
+(* public-key mode (DH): the key identifier carries the public key of exactly the third draw (C03 agree_dh) *)
+Lemma pubkey_key_info : forall c h top es ep rnd seed kl p g,
+  envelope_hash es = Ok h -> envelope_hash ep = Ok h -> gke_is_public_key es = false -> gke_is_public_key ep = true ->
+  gke_l0 es = gke_l0 ep -> gke_rkid es = gke_rkid ep -> gke_secret_alg es = STR_DH -> gke_secret_alg ep = STR_DH ->
+  gke_priv_len es = gke_priv_len ep -> GkdiLib.u32b (gke_priv_len ep) = true -> 0 <= gke_l1 ep <= 31 -> 0 <= gke_l2 ep <= 31 ->
+  conforming (Kek.KDFof c h ep) top (C02.env_of es) -> covers (C02.env_of es) (gke_l1 ep) (gke_l2 ep) ->
+  K2 (Kek.KDFof c h ep) top (gke_l1 ep) (gke_l2 ep) = Ok seed ->
+  0 < p -> GkdiLib.u32b kl = true -> GkdiStructs.fitsb kl p = true -> GkdiStructs.fitsb kl g = true ->
+  let nbytes := bytes_of_bits (gke_priv_len ep) in
+  let y := OS2IP (kdf c h seed KDS_SERVICE (lit16z "DH") nbytes) in let x := OS2IP (rnd nbytes) in
+  wfb (kdf c h seed KDS_SERVICE (lit16z "DH") nbytes) = true -> wfb (rnd nbytes) = true ->
+  gke_l2_key ep = concat (GkdiStructs.ffk_field_list {| ffk_key_length := kl; ffk_field_order := p; ffk_generator := g; ffk_public_key := dh_public p g y |}) ->
+  exists kek kid, new_kek c rnd ep = Ok (kek, kid) /\
+    kid_key_info kid = concat (GkdiStructs.ffk_field_list {| ffk_key_length := kl; ffk_field_order := p; ffk_generator := g; ffk_public_key := dh_public p g x |}).
+Proof.
+  intros c h top es ep rnd seed kl p g H1 H2 H3 H4 H5 H6 H7 H8 H9 H10 H11 H12 H13 H14 H15 H16 H17 H18 H19 nbytes y x H20 H21 H22.
+  destruct (Kek.agree_dh c h top es ep rnd seed kl p g H1 H2 H3 H4 H5 H6 H7 H8 H9 H10 H11 H12 H13 H14 H15 H16 H17 H18 H19 H20 H21 H22) as (kid & E & K & _).
+  eauto.
+Qed.
